@@ -99,7 +99,7 @@ func compiled(name string) (*circuit.Circuit, error) {
 	return c, nil
 }
 
-var fragChoices = []int{0, 0, 1, 2, 3, 15, 16, 17, 31, 4095, 65537}
+var fragChoices = []int{0, 0, 1, 2, 3, 15, 16, 17, 31, 4095, 8191, 8192, 10000, 20000, 65537}
 
 func drawFrags(t *rapid.T, label string) []int {
 	n := rapid.IntRange(0, 5).Draw(t, label+"_n")
